@@ -359,12 +359,16 @@ impl<'a> Gen<'a> {
             Ty::S(Elem::Usize) => {
                 if op.fname == "fmt_sink" {
                     Val::Usize(if self.rng.chance(1, 2) { usize::MAX } else { self.rng.below(12) })
+                } else if op.fname == "fmt_spec" {
+                    Val::Usize(self.rng.below(crate::ops::N_FMT_SPECS))
                 } else {
                     Val::Usize(self.rng.below(idx_limit.max(1)))
                 }
             }
             t @ Ty::Slice(_) => {
-                let len = n + self.rng.below(3);
+                // valid lengths only (short slices are C18's business), but well beyond N: a fast path that
+                // kicks in for roomy destinations must not leak the padding lane either
+                let len = n + *self.rng.pick(&[0, 0, 1, 2, 3, 4, 7, 8, 16]);
                 gen_val(t, self.rng, self.cls, len)
             }
             t => gen_val(t, self.rng, self.cls, 4),
